@@ -2682,6 +2682,10 @@ pub fn run_world(cfg: &WorldCfg) {
             if cfg.mon.c04 {
                 violation(&format!("C04/panic/{}", panic_site(&msg)), msg.clone());
             }
+            if cfg.mon.c12 {
+                // dropping handles in any order, interleaved with stabilises, never panics
+                violation(&format!("C12/panic/{}", panic_site(&msg)), msg.clone());
+            }
             exec::note_panic(msg);
         }
     }
